@@ -71,14 +71,23 @@ DEDUCTIVE = {
     "C20": node(["has_inlinks", "inlinks", "is_page"]),
 }
 
+# FR-STATE is a premise of every property that relates answers to the history of
+# requests: answers are functions of the two stores (no other mutable RAM state)
 STATIC = {
-    "C01": ["TS"],
-    "C03": ["TS"],
-    "C04": ["TS"],
-    "C06": ["FR-RO:get_potential_prefix"],
+    "C01": ["TS", "FR-STATE"],
+    "C02": ["FR-STATE"],
+    "C03": ["TS", "FR-STATE"],
+    "C04": ["TS", "FR-STATE"],
+    "C05": ["FR-STATE"],
+    "C06": ["FR-RO:get_potential_prefix", "FR-STATE"],
+    "C07": ["FR-STATE"],
+    "C08": ["FR-STATE"],
+    "C09": ["FR-STATE"],
+    "C10": ["FR-STATE"],
+    "C20": ["FR-STATE"],
     "C11": ["FR-STATE"],
     "C12": ["FR-ID", "FR-STATE"],
-    "C13": ["TS"],
+    "C13": ["TS", "FR-STATE"],
     "C14": ["FR-RO"],
     "C15": ["FR-SHAPE"],
     "C16": ["TS"],
